@@ -30,6 +30,14 @@ PROGRAMS = {
     "usernames2": {"goals": ["_t5", "w"],
                    "text": "_t5 = 2\n_t4 = 1\nw = 0\nwhile true:\n    _t5, _t4 = _t4, _t5\n    w = w + _t5\nend\n"},
 }
+PROGRAMS.update({
+    "finA": {"goals": ["x**3", "x**2*y", "y"],
+             "text": "x = 0\ny = 0\nwhile true:\n    y = y + x**2\n    x = 0 {1/3} 1 {1/3} 2\nend\n"},
+    "finB": {"goals": ["x**3", "x**2*y", "y"],
+             "text": "x = 0\ny = 0\nwhile true:\n    y = y + x**2\n    x = 0 {1/2} 2 {1/4} 4\nend\n"},
+    "trig": {"goals": ["y", "z"],
+             "text": "x = 0\ny = 0\nz = 2\nwhile true:\n    x = DiscreteUniform(1, 2)\n    z = z + y\n    y = Cos(x)\nend\n"},
+})
 OPTIONS = ["tc", "c2a", "exact"]
 OPTMAP = {"tc": "transform_categoricals", "c2a": "cond2arithm", "exact": "exact_func_moments"}
 
